@@ -189,6 +189,11 @@ def check_builder_chunk(seq):
     for c in seq[1:]:
         if g < 1 or c[1] % g != 0:
             return {"sig": "native::builder::chunk", "what": f"chunk {g} does not divide duration {c[1]}", "input": {"schedule": seq}}
+    if sum(c[1] for c in seq) <= 60:
+        try:
+            eng.sample_all_epochs()
+        except Exception as e:
+            return {"sig": "native::builder::accepted_schedule_cannot_be_sampled", "what": f"an accepted schedule raises {type(e).__name__} when sampled: {str(e)[:120]}", "input": {"schedule": seq}}
     return None
 
 
@@ -263,6 +268,7 @@ def bounded(tier, seed):
     samples.append({"stan_epochs": grid[7]})
     # builder chunk on a few real builds
     scheds = [[(0, 1, 1), (1, 6, 1), (2, 9, 3), (4, 12, 4)], [(0, 1, 1), (3, 7, 1)], [(0, 1, 1), (4, 10, 5), (4, 15, 1)],
+              [(0, 1, 1), (3, 6, 1), (4, 1, 1)], [(0, 1, 1), (3, 1, 1), (1, 8, 2), (4, 4, 1)], [(0, 1, 1), (4, 1, 1)],
               [(0, 1, 1), (3, 2500, 1), (4, 5000, 1)], [(0, 1, 1), (4, 1001, 1)], [(0, 1, 1), (3, 3 * 7919, 1), (4, 7919, 1)]]
     if tier != "quick":
         for _ in range(20):
@@ -305,6 +311,12 @@ def replay(unit_id, obligation, model):
         if unit_id.startswith("C16.observable") and all(f"c{i}" in model for i in range(3)):
             att = [(int(model[f"c{i}"]["type"]), int(model[f"c{i}"]["duration"]), int(model[f"c{i}"]["thinning"])) for i in range(3)]
             return check_attempts(att, interleave=unit_id.endswith("interleaved"))
+        if unit_id.startswith("C16.builder_chunk.n"):
+            n = int(unit_id[-1])
+            seq = [(int(model[f"c{i}"]["type"]), int(model[f"c{i}"]["duration"]), int(model[f"c{i}"]["thinning"])) for i in range(n)]
+            if not valid_py(seq) or sum(c[1] for c in seq) > 10**6:
+                return None
+            return check_builder_chunk(seq)
         if unit_id == "C16.next" and "configs" in model:
             seq = _seq_from_model(model["configs"])
             if model["configs"]["len"] != len(seq) or not valid_py(seq):
